@@ -101,6 +101,22 @@ func (p *FunctionBuilder) CreateFunction(m *bmodel.MethodEntry) (*gmodel.Functio
 		srcVar.Name = m.Opts.Receiver
 	}
 
+	// The operands, additional arguments and the error result share one scope:
+	// their names must differ, and the operands the code works on need one.
+	names := map[string]bool{}
+	if m.RetError() {
+		names["err"] = true
+	}
+	for i, v := range append([]gmodel.Var{srcVar, dstVar}, additionalArgsVars...) {
+		if v.Name == "_" && i < 2 {
+			return nil, logger.Errorf("%v: the source and the destination cannot be called _", p.fset.Position(m.Method.Pos()))
+		}
+		if v.Name != "_" && names[v.Name] {
+			return nil, logger.Errorf("%v: the name %v is used twice in the generated function", p.fset.Position(m.Method.Pos()), v.Name)
+		}
+		names[v.Name] = true
+	}
+
 	var assignments []gmodel.Assignment
 	var err error
 	if m.Opts.Reverse {
